@@ -33,14 +33,14 @@ fi
 # false-alarm corpus: behaviour-preserving refactorings (refactors/) - the check must stay silent
 fa="[]"
 if [ "$root" = /repo ] && ls "$here"/refactors/*/patch.diff >/dev/null 2>&1; then
-  out=$(GODICHECK="$here/bin/godicheck" "$here/tools/sweep.sh" "$prop" "$here"/refactors/*/patch.diff 2>/dev/null)
+  out=$(GODICHECK="$here/bin/godicheck" "$here/tools/sweep.sh" "$prop" "$here"/refactors/*/patch.diff "$here"/features/*/patch.diff 2>/dev/null)
   fa=$(echo "$out" | python3 -c '
 import sys, re, json
 res=[]
 for l in sys.stdin:
     m=re.match(r"(\S+): (PATCH-FAILED|(C\d+)=(\d)\[(.*?)\])", l.strip())
     if not m: continue
-    name=m.group(1).split("/refactors/")[-1].replace("/patch.diff","")
+    name=m.group(1).replace("/patch.diff","").split("/verif/")[-1]
     if m.group(2)=="PATCH-FAILED": res.append({"entry":name,"status":"skipped: does not apply to the current tree"}); continue
     res.append({"entry":name,"exit":int(m.group(4)),"rules":[x for x in m.group(5).split(",") if x],"silent":m.group(4)=="0"})
 print(json.dumps(res))')
@@ -56,7 +56,7 @@ c["sensitivity_corpus"] = {"entries": len(sens), "detected": sum(1 for s in sens
     "note": "each entry is a change to the repository that compiles and passes the unedited test suite; the checker was run on a scratch copy with the entry applied; evidence only, never part of the verdict",
     "results": sens}
 c["false_alarm_corpus"] = {"entries": len(fa), "silent": sum(1 for s in fa if s.get("silent")),
-    "note": "behaviour-preserving refactorings written by independent sub-agents (suite and -race green); the checker was run on a scratch copy with each applied; an entry that is not silent is a checker defect (or a documented limit, DESIGN.md section 8); evidence only, never part of the verdict",
+    "note": "behaviour-preserving refactorings (refactors/) and correct feature additions (features/) written by independent sub-agents (suite and -race green); the checker was run on a scratch copy with each applied; an entry of refactors/ that is not silent is a checker defect; the entries of features/ that are reported are listed with the reason in features/README.md; evidence only, never part of the verdict",
     "not_silent": [s for s in fa if not s.get("silent")]}
 c["cross_reference"] = {"go_vet_copylocks_lostcancel_atomic_lines": int(vet), "note": "generic analyzers, recorded only; they decide nothing"}
 json.dump(e, open(ev, "w"), indent=1); open(ev, "a").write("\n")
